@@ -201,6 +201,9 @@ func degenerate(g *core.G, n *core.N, cli bool) *core.N {
 func Replay(c *core.Ctx, lines []string) {
 	for _, l := range lines {
 		f := strings.Split(l, "\t")
+		if replayRound7(c, f) {
+			continue
+		}
 		switch {
 		case f[0] == "C14.matrix" && len(f) >= 3:
 			n, err := core.ParseDump(f[2])
@@ -315,6 +318,7 @@ func Run(c *core.Ctx) {
 		}
 	}
 	smallCutOrders(c, !c.Quick())
+	round7Cases(c)
 	if c.Gotree != "" {
 		m := c.Scale(300, 5000)
 		for i := 0; i < m; i++ {
